@@ -41,6 +41,7 @@ class Tree:
         self.cyclic = False
         self.has_chain = False
         self.has_rel_link = False
+        self.has_special = False
 
     def path(self, rel):
         return os.path.join(self.root, rel)
@@ -73,7 +74,7 @@ def build_tree(rng, root, features):
         parent = rng.choice(t.dirs)
         name = "ln" + str(l)
         rel = join(parent, name)
-        kinds = ["file_rel", "file_abs", "dir_rel", "dir_abs", "chain"]
+        kinds = ["file_rel", "file_abs", "dir_rel", "dir_abs", "chain", "to_special"]
         if "cycles" in features:
             kinds += ["cycle_parent", "cycle_parent", "cycle_mutual"]
         kind = rng.choice(kinds)
@@ -97,6 +98,21 @@ def build_tree(rng, root, features):
             os.symlink(name + "_mid", t.path(rel))
             t.links.append(mid)
             t.has_chain = True
+        elif kind == "to_special":
+            # a link whose target is neither a regular file nor a directory (a device, a socket): nothing to record
+            if rng.random() < 0.5 and stat.S_ISCHR(os.stat("/dev/null").st_mode):
+                os.symlink("/dev/null", t.path(rel))
+            else:
+                import socket
+                sp = root.rstrip("/") + ".sock" + str(l)
+                if len(sp) < 100 and not os.path.lexists(sp):
+                    sk = socket.socket(socket.AF_UNIX)
+                    sk.bind(sp)
+                    sk.close()
+                    os.symlink(sp, t.path(rel))
+                else:
+                    os.symlink("/dev/null", t.path(rel))
+            t.has_special = True
         elif kind == "cycle_parent":
             os.symlink(".." if parent != "." else ".", t.path(rel))
             t.cyclic = True
@@ -331,7 +347,7 @@ def gen_case(rng, base, i, features):
         lstrip = [d + "/" for d in rng.sample(t.dirs[1:], 2)]
     return {"op": "record", "cwd": root, "paths": args, "algs": algs, "lstrip": lstrip,
             "meta": {"features": sorted(features | ({"cyclic"} if t.cyclic else set())), "overlap": overlap, "rel_link": t.has_rel_link,
-                     "chain": t.has_chain, "unknown_alg": unknown, "nlinks": len(t.links), "nfiles": len(t.files)}}
+                     "chain": t.has_chain, "special": t.has_special, "unknown_alg": unknown, "nlinks": len(t.links), "nfiles": len(t.files)}}
 
 
 def shard(binpath, seed, sh, n):
@@ -352,6 +368,8 @@ def shard(binpath, seed, sh, n):
         cls = ["outcome:" + r, "args:" + ("overlap" if m["overlap"] else "disjoint"), "lstrip:" + ("yes" if c["lstrip"] else "no"),
                "algs:" + ("default" if c["algs"] is None else "+".join(c["algs"]))]
         cls += ["tree:" + f for f in m["features"]] or ["tree:plain"]
+        if m.get("special"):
+            cls.append("tree:link_to_special_file")
         if m["chain"]:
             cls.append("tree:symlink_chain")
         if m["rel_link"]:
